@@ -428,9 +428,10 @@ def b_isinstance(ex, path, ca, node):
     classes = list(c.items) if isinstance(c, T) else [c]
     names = []
     for k in classes:
-        if not (isinstance(k, Py) and k.obj[0] in ("class", "exc", "astclass")):
+        if not (isinstance(k, Py) and k.obj[0] in ("class", "exc", "astclass", "builtin")):
             raise Unsupported(f"isinstance against {k}")
-        names.append(k.obj)
+        # a callable modelled as a builtin that is also a type (functools.partial): its name is the class name
+        names.append(("class", k.obj[1]) if k.obj[0] == "builtin" else k.obj)
     if isinstance(v, (S,)):
         return [(path, B(z3.BoolVal(any(n == ("class", "str") for n in names))))]
     if isinstance(v, NoneV):
